@@ -351,6 +351,20 @@ fn eval_roundtrip(tags: &[&Sym], meta: usize) -> (Vec<(String, String)>, Option<
 			v.push((format!("C16/roundtrip/{culprit}"), format!("{ev:?} serialises to {text} which parses back as {back:?}")));
 		}
 	}
+	// the other ways a consumer can parse the same JSON: from a reader (strings are not
+	// borrowed from the input), from an already parsed value, from bytes
+	let others: [(&str, Result<Event, String>); 3] = [
+		("from_reader", serde_json::from_reader::<_, Event>(text.as_bytes()).map_err(|e| e.to_string())),
+		("from_value", serde_json::from_str::<Value>(&text).and_then(serde_json::from_value::<Event>).map_err(|e| e.to_string())),
+		("from_slice", serde_json::from_slice::<Event>(text.as_bytes()).map_err(|e| e.to_string())),
+	];
+	for (how, r) in others {
+		match r {
+			Ok(back) if back == ev => {}
+			Ok(back) => v.push((format!("C16/roundtrip/{how}/differs/{}", first_class()), format!("{text} parsed with {how} gives {back:?}, not {ev:?}"))),
+			Err(e) => v.push((format!("C16/roundtrip/{how}/parse-failed/{}", first_class()), format!("{ev:?} serialises to {text} which {how} does not parse: {e}"))),
+		}
+	}
 	// the documented shape, on the text as any JSON consumer sees it
 	match serde_json::from_str::<Value>(&text) {
 		Ok(Value::Object(o)) => {
